@@ -39,6 +39,7 @@ def spec_evaluator(world, label):
     fv._nonneg, fv._nonneg_keep = set(), []
     fv._fresh_ids, fv._entry_ids, fv._id_keep = set(), set(), []
     fv._owner_tag, fv._entry_term_cache, fv._binder_cache, fv._lkind_tag = {}, {}, {}, {}
+    fv._revealed = {}
     fv.where = lambda node: ""
     return fv
 
